@@ -808,6 +808,7 @@ func (s *Subscription) unsubscribeDirect(reason *reserr.Error) {
 // Dispose removes any resourceSubscription and sets
 // the subscription state to stateDisposed
 func (s *Subscription) Dispose() {
+	verifSub("dispose", s)
 	if s.state == stateDisposed {
 		return
 	}
